@@ -114,6 +114,8 @@ def probe_src(ws, names, rng, local_defs=None, kinds=None):
                 out.append(f"@pytest.fixture\ndef dep{u}({n}):\n    return {n}\n\n")
     if local_at_end:
         out.append(local_defs)
+    # a decorator line on which completion lists the whole per-file view (no parameter/scope filtering)
+    out.append("@pytest.mark.usefixtures()\ndef test_zz_view_probe():\n    pass\n\n")
     if pm:
         lst = ", ".join(f'pytest.mark.usefixtures("{n}")' for n in pm)
         if len(pm) == 1 and rng.random() < 0.5:
